@@ -806,7 +806,10 @@ def run(out, ctx):
     report_failures(out, failures, seed)
     out.tested_not_proved = ["the cache state machine is a hand-written abstraction of the code: its agreement with "
                              "the implementation (statuses, which snapshot a prediction is computed from) is tested",
-                             "numerical agreement of cached and freshly computed quantities (1e-8)"]
+                             "numerical agreement of cached and freshly computed quantities (1e-8)",
+                             "which caches depend on the batch shape of the test inputs (model: only the variational Cholesky "
+                             "factor; the exact strategies' caches, KISS-GP covar_cache included, are functions of the training "
+                             "data only): tested by comparing shapes and values with a fresh model"]
     out.notes.append("Backward status is compared for the exact/default family only; other families log it")
 
 
@@ -833,7 +836,14 @@ def report_failures(out, failures, seed):
     for famname, hist, p in failures:
         fam = fams.setdefault(famname, FAMILIES[famname](seed))
         groups.setdefault(failure_key(famname, p, fam), []).append((famname, hist, p))
-    for key, lst in sorted(groups.items()):
+    # the budget for shrinking / explaining goes to keys that are not recorded findings first
+    try:
+        import re
+        known = [k["key"] for k in C.load_known() if k.get("property") == "C03" and k.get("status", "known") == "known"]
+    except Exception:
+        known = []
+    order = sorted(groups.items(), key=lambda kv: (any(re.search(r, kv[0]) for r in known), kv[0]))
+    for key, lst in order:
         famname, hist, p = min(lst, key=lambda t: (t[2]["pos"], len(t[1])))
         fam = fams[famname]
         oracle = Oracle(fam)
